@@ -41,6 +41,41 @@ type c18Op struct {
 	Key int    `json:"key,omitempty"` // key index
 	H   int    `json:"h,omitempty"`   // virtual ms held (inside callback / between acquire and release)
 	A   int    `json:"a,omitempty"`   // extra argument (fail flag, timeout ms, ...)
+	M   int    `json:"m,omitempty"`   // instance of the primitive the call goes to (0 or 1)
+}
+
+// c18Inst: several instances of one primitive live in one process (and one
+// bubble) and are used concurrently with the same keys. Every instance is
+// judged by its own specification: for the keyed primitives the oracle's key
+// is (instance, key), so a result, execution or resource that crosses
+// instances is reported as belonging to another key; counts are per instance.
+const c18Inst = 2
+
+func c18EffKey(op c18Op) int { return op.M*3 + op.Key }
+
+// c18DrawInstances sends the operations of about one case in three to two
+// instances of the primitive.
+func c18DrawInstances(rt *rapid.T, gs [][]c18Op) {
+	if rapid.IntRange(0, 2).Draw(rt, "twoInstances") != 0 {
+		return
+	}
+	for g := range gs {
+		for i := range gs[g] {
+			gs[g][i].M = rapid.IntRange(0, c18Inst-1).Draw(rt, "inst")
+		}
+	}
+}
+
+func c18InstanceClasses(v *c18V, c c18Case) {
+	seen := map[int]bool{}
+	for _, g := range c.Gs {
+		for _, o := range g {
+			seen[o.M] = true
+		}
+	}
+	if len(seen) > 1 {
+		v.class("two-instances")
+	}
 }
 
 type c18Case struct {
@@ -149,6 +184,17 @@ func (l *c18Log) exec(e c18Exec) {
 	l.mu.Lock()
 	l.execs = append(l.execs, e)
 	l.mu.Unlock()
+}
+
+// inst returns the history of the calls made on instance m.
+func (l *c18Log) inst(m int) *c18Log {
+	out := &c18Log{}
+	for _, ev := range l.evs {
+		if ev.Op.M == m {
+			out.evs = append(out.evs, ev)
+		}
+	}
+	return out
 }
 
 // c18Play runs the goroutines of a case inside a fresh bubble. setup builds the
@@ -274,6 +320,7 @@ func c18CaseClasses(v *c18V, c c18Case) {
 		}
 	}
 	v.class(fmt.Sprintf("goroutines=%d", len(c.Gs)))
+	c18InstanceClasses(v, c)
 	if zero && len(c.Gs) > 1 {
 		v.class("burst(all-zero-delays)")
 	}
